@@ -334,22 +334,71 @@ impl NodeId {
         self.checked_prepend(new_child, arena)
             .expect("Preconditions not met: invalid argument");
     }
-    #[verifier::external_body]
     pub fn checked_prepend<T>(
         self,
         new_child: NodeId,
         arena: &mut Arena<T>,
-    ) -> Result<(), NodeError> {
+    ) -> (r: Result<(), NodeError>)
+        // @props C01 C02 C03 C05 C08 C12
+        requires
+            old(arena).wf(),
+            old(arena).current(self),
+            old(arena).current(new_child),
+        ensures
+            // @ob C01.wf@checked_prepend C01 C02 C12
+            final(arena).wf(),
+            // @ob C05.prepend_fails_iff_impossible C05 C12
+            r is Err <==> insert_impossible(old(arena).nodes@, self, new_child),
+            // @ob C05.prepend_reports_a_reason_that_applies C05
+            r is Err ==> match r->Err_0 {
+                NodeError::PrependSelf => new_child == self,
+                NodeError::Removed => old(arena).at(self).stamp.removed() || old(arena).at(new_child).stamp.removed(),
+                NodeError::PrependAncestor => anc(old(arena).nodes@, new_child.idx(), self.idx()),
+                _ => false,
+            },
+            // @ob C05.prepend_rejection_is_atomic C05 C12
+            r is Err ==> final(arena).nodes@ == old(arena).nodes@,
+            final(arena).first_free_slot == old(arena).first_free_slot,
+            final(arena).last_free_slot == old(arena).last_free_slot,
+            // @ob C03.prepend_exact_effect C03 C08
+            r is Ok ==> exists|m: Seq<Node<T>>| #[trigger]
+                detach_post(old(arena).nodes@, m, new_child.idx()) && insert_post(
+                    m,
+                    final(arena).nodes@,
+                    new_child,
+                    Some(self),
+                    None,
+                    m[self.idx()].first_child,
+                ),
+    {
         if new_child == self {
             return Err(NodeError::PrependSelf);
         }
         if arena[self].is_removed() || arena[new_child].is_removed() {
             return Err(NodeError::Removed);
         }
+        let ghost w = choose|w: Ranks| ranked(arena.nodes@, w);
         if {
             let mut __vx_iter1 = self.ancestors(arena);
             let mut __vx_any2 = false;
-            while let Some(ancestor) = __vx_iter1.next() {
+            while let Some(ancestor) = __vx_iter1.next()
+                invariant_except_break
+                    !__vx_any2,
+                invariant
+                    *__vx_iter1.0.arena == *arena,
+                    *arena == *old(arena),
+                    links_ok(arena.nodes@),
+                    ranked(arena.nodes@, w),
+                    arena.live(new_child),
+                    anc_loop_inv(arena.nodes@, w, self.idx(), new_child.idx(), __vx_iter1.0.node, __vx_any2),
+                ensures
+                    __vx_any2 == in_sub(arena.nodes@, w, new_child.idx(), self.idx()),
+                // @ob C02.prepend_ancestor_walk_terminates C02
+                decreases anc_loop_measure(w, __vx_iter1.0.node),
+            {
+                proof {
+                    lemma_anc_loop_step(arena.nodes@, w, self.idx(), new_child, ancestor);
+                }
                 if new_child == ancestor {
                     __vx_any2 = true;
                     break;
@@ -357,11 +406,35 @@ impl NodeId {
             }
             __vx_any2
         } {
+            proof {
+                lemma_anc_iff(arena.nodes@, w, new_child.idx(), self.idx());
+            }
             return Err(NodeError::PrependAncestor);
         }
+        proof {
+            lemma_anc_iff(arena.nodes@, w, new_child.idx(), self.idx());
+            if new_child.idx() == self.idx() {
+                lemma_id_eq(new_child, self);
+            }
+        }
         new_child.detach(arena);
+        let ghost mid = arena.nodes@;
+        proof {
+            lemma_in_sub_frame(old(arena).nodes@, mid, w, new_child.idx(), self.idx());
+            lemma_gap_at_end(mid, self);
+        }
         insert_with_neighbors(arena, new_child, Some(self), None, arena[self].first_child)
             .expect("Should never fail: `new_child` is not `self` and they are not removed");
+        proof {
+            assert(detach_post(old(arena).nodes@, mid, new_child.idx()) && insert_post(
+                mid,
+                arena.nodes@,
+                new_child,
+                Some(self),
+                None,
+                mid[self.idx()].first_child,
+            ));
+        }
         Ok(())
     }
     #[verifier::external_body]
@@ -369,22 +442,71 @@ impl NodeId {
         self.checked_insert_after(new_sibling, arena)
             .expect("Preconditions not met: invalid argument");
     }
-    #[verifier::external_body]
     pub fn checked_insert_after<T>(
         self,
         new_sibling: NodeId,
         arena: &mut Arena<T>,
-    ) -> Result<(), NodeError> {
+    ) -> (r: Result<(), NodeError>)
+        // @props C01 C02 C03 C05 C08 C12
+        requires
+            old(arena).wf(),
+            old(arena).current(self),
+            old(arena).current(new_sibling),
+        ensures
+            // @ob C01.wf@checked_insert_after C01 C02 C12
+            final(arena).wf(),
+            // @ob C05.insert_after_fails_iff_impossible C05 C12
+            r is Err <==> insert_impossible(old(arena).nodes@, self, new_sibling),
+            // @ob C05.insert_after_reports_a_reason_that_applies C05
+            r is Err ==> match r->Err_0 {
+                NodeError::InsertAfterSelf => new_sibling == self,
+                NodeError::Removed => old(arena).at(self).stamp.removed() || old(arena).at(new_sibling).stamp.removed(),
+                NodeError::InsertAfterAncestor => anc(old(arena).nodes@, new_sibling.idx(), self.idx()),
+                _ => false,
+            },
+            // @ob C05.insert_after_rejection_is_atomic C05 C12
+            r is Err ==> final(arena).nodes@ == old(arena).nodes@,
+            final(arena).first_free_slot == old(arena).first_free_slot,
+            final(arena).last_free_slot == old(arena).last_free_slot,
+            // @ob C03.insert_after_exact_effect C03 C08
+            r is Ok ==> exists|m: Seq<Node<T>>| #[trigger]
+                detach_post(old(arena).nodes@, m, new_sibling.idx()) && insert_post(
+                    m,
+                    final(arena).nodes@,
+                    new_sibling,
+                    m[self.idx()].parent,
+                    Some(self),
+                    m[self.idx()].next_sibling,
+                ),
+    {
         if new_sibling == self {
             return Err(NodeError::InsertAfterSelf);
         }
         if arena[self].is_removed() || arena[new_sibling].is_removed() {
             return Err(NodeError::Removed);
         }
+        let ghost w = choose|w: Ranks| ranked(arena.nodes@, w);
         if {
             let mut __vx_iter1 = self.ancestors(arena);
             let mut __vx_any2 = false;
-            while let Some(ancestor) = __vx_iter1.next() {
+            while let Some(ancestor) = __vx_iter1.next()
+                invariant_except_break
+                    !__vx_any2,
+                invariant
+                    *__vx_iter1.0.arena == *arena,
+                    *arena == *old(arena),
+                    links_ok(arena.nodes@),
+                    ranked(arena.nodes@, w),
+                    arena.live(new_sibling),
+                    anc_loop_inv(arena.nodes@, w, self.idx(), new_sibling.idx(), __vx_iter1.0.node, __vx_any2),
+                ensures
+                    __vx_any2 == in_sub(arena.nodes@, w, new_sibling.idx(), self.idx()),
+                // @ob C02.insert_after_ancestor_walk_terminates C02
+                decreases anc_loop_measure(w, __vx_iter1.0.node),
+            {
+                proof {
+                    lemma_anc_loop_step(arena.nodes@, w, self.idx(), new_sibling, ancestor);
+                }
                 if new_sibling == ancestor {
                     __vx_any2 = true;
                     break;
@@ -392,15 +514,39 @@ impl NodeId {
             }
             __vx_any2
         } {
+            proof {
+                lemma_anc_iff(arena.nodes@, w, new_sibling.idx(), self.idx());
+            }
             return Err(NodeError::InsertAfterAncestor);
         }
+        proof {
+            lemma_anc_iff(arena.nodes@, w, new_sibling.idx(), self.idx());
+            if new_sibling.idx() == self.idx() {
+                lemma_id_eq(new_sibling, self);
+            }
+        }
         new_sibling.detach(arena);
+        let ghost mid = arena.nodes@;
+        proof {
+            lemma_in_sub_frame(old(arena).nodes@, mid, w, new_sibling.idx(), self.idx());
+            lemma_gap_around(mid, w, self, new_sibling.idx());
+        }
         let (next_sibling, parent) = {
             let current = &arena[self];
             (current.next_sibling, current.parent)
         };
         insert_with_neighbors(arena, new_sibling, parent, Some(self), next_sibling)
             .expect("Should never fail: `new_sibling` is not `self` and they are not removed");
+        proof {
+            assert(detach_post(old(arena).nodes@, mid, new_sibling.idx()) && insert_post(
+                mid,
+                arena.nodes@,
+                new_sibling,
+                mid[self.idx()].parent,
+                Some(self),
+                mid[self.idx()].next_sibling,
+            ));
+        }
         Ok(())
     }
     #[verifier::external_body]
@@ -408,22 +554,71 @@ impl NodeId {
         self.checked_insert_before(new_sibling, arena)
             .expect("Preconditions not met: invalid argument");
     }
-    #[verifier::external_body]
     pub fn checked_insert_before<T>(
         self,
         new_sibling: NodeId,
         arena: &mut Arena<T>,
-    ) -> Result<(), NodeError> {
+    ) -> (r: Result<(), NodeError>)
+        // @props C01 C02 C03 C05 C08 C12
+        requires
+            old(arena).wf(),
+            old(arena).current(self),
+            old(arena).current(new_sibling),
+        ensures
+            // @ob C01.wf@checked_insert_before C01 C02 C12
+            final(arena).wf(),
+            // @ob C05.insert_before_fails_iff_impossible C05 C12
+            r is Err <==> insert_impossible(old(arena).nodes@, self, new_sibling),
+            // @ob C05.insert_before_reports_a_reason_that_applies C05
+            r is Err ==> match r->Err_0 {
+                NodeError::InsertBeforeSelf => new_sibling == self,
+                NodeError::Removed => old(arena).at(self).stamp.removed() || old(arena).at(new_sibling).stamp.removed(),
+                NodeError::InsertBeforeAncestor => anc(old(arena).nodes@, new_sibling.idx(), self.idx()),
+                _ => false,
+            },
+            // @ob C05.insert_before_rejection_is_atomic C05 C12
+            r is Err ==> final(arena).nodes@ == old(arena).nodes@,
+            final(arena).first_free_slot == old(arena).first_free_slot,
+            final(arena).last_free_slot == old(arena).last_free_slot,
+            // @ob C03.insert_before_exact_effect C03 C08
+            r is Ok ==> exists|m: Seq<Node<T>>| #[trigger]
+                detach_post(old(arena).nodes@, m, new_sibling.idx()) && insert_post(
+                    m,
+                    final(arena).nodes@,
+                    new_sibling,
+                    m[self.idx()].parent,
+                    m[self.idx()].previous_sibling,
+                    Some(self),
+                ),
+    {
         if new_sibling == self {
             return Err(NodeError::InsertBeforeSelf);
         }
         if arena[self].is_removed() || arena[new_sibling].is_removed() {
             return Err(NodeError::Removed);
         }
+        let ghost w = choose|w: Ranks| ranked(arena.nodes@, w);
         if {
             let mut __vx_iter1 = self.ancestors(arena);
             let mut __vx_any2 = false;
-            while let Some(ancestor) = __vx_iter1.next() {
+            while let Some(ancestor) = __vx_iter1.next()
+                invariant_except_break
+                    !__vx_any2,
+                invariant
+                    *__vx_iter1.0.arena == *arena,
+                    *arena == *old(arena),
+                    links_ok(arena.nodes@),
+                    ranked(arena.nodes@, w),
+                    arena.live(new_sibling),
+                    anc_loop_inv(arena.nodes@, w, self.idx(), new_sibling.idx(), __vx_iter1.0.node, __vx_any2),
+                ensures
+                    __vx_any2 == in_sub(arena.nodes@, w, new_sibling.idx(), self.idx()),
+                // @ob C02.insert_before_ancestor_walk_terminates C02
+                decreases anc_loop_measure(w, __vx_iter1.0.node),
+            {
+                proof {
+                    lemma_anc_loop_step(arena.nodes@, w, self.idx(), new_sibling, ancestor);
+                }
                 if new_sibling == ancestor {
                     __vx_any2 = true;
                     break;
@@ -431,15 +626,39 @@ impl NodeId {
             }
             __vx_any2
         } {
+            proof {
+                lemma_anc_iff(arena.nodes@, w, new_sibling.idx(), self.idx());
+            }
             return Err(NodeError::InsertBeforeAncestor);
         }
+        proof {
+            lemma_anc_iff(arena.nodes@, w, new_sibling.idx(), self.idx());
+            if new_sibling.idx() == self.idx() {
+                lemma_id_eq(new_sibling, self);
+            }
+        }
         new_sibling.detach(arena);
+        let ghost mid = arena.nodes@;
+        proof {
+            lemma_in_sub_frame(old(arena).nodes@, mid, w, new_sibling.idx(), self.idx());
+            lemma_gap_around(mid, w, self, new_sibling.idx());
+        }
         let (previous_sibling, parent) = {
             let current = &arena[self];
             (current.previous_sibling, current.parent)
         };
         insert_with_neighbors(arena, new_sibling, parent, previous_sibling, Some(self))
             .expect("Should never fail: `new_sibling` is not `self` and they are not removed");
+        proof {
+            assert(detach_post(old(arena).nodes@, mid, new_sibling.idx()) && insert_post(
+                mid,
+                arena.nodes@,
+                new_sibling,
+                mid[self.idx()].parent,
+                mid[self.idx()].previous_sibling,
+                Some(self),
+            ));
+        }
         Ok(())
     }
     #[verifier::external_body]
